@@ -339,8 +339,10 @@ Proof.
   - intros n s. rewrite run_node_update_S. destruct (nodes s !! n) as [nd|]; [|lrefl]. cbv zeta.
     lb; [unfold lext; eapply logext_log_r; [apply unlink_deps_log|]; lok|].
     destruct (n_cb nd) as [c|]; [|lrefl]. destruct (n_value nd) as [old|]; [|lrefl].
-    lb; [lvia Hdc|]. lb; [lvia Hbody|].
+    lb; [lvia Hdc|].
     match goal with |- context [true && negb ?b] => destruct b end; cbn [andb negb]; [|lok].
+    lb; [lvia Hbody|].
+    match goal with |- context [if negb ?b then _ else _] => destruct b end; cbn [andb negb]; [|lok].
     lb; [unfold lext; eapply logext_log_r; [apply link_log|]; lok|].
     match goal with |- context [if alive ?a ?b then _ else _] => destruct (alive a b) end; [|lrefl].
     match goal with |- context [if ?b then _ else _] => destruct b end; [|lok].
